@@ -504,12 +504,25 @@ func (t *c17) mergeLaws(r *rand.Rand, exhaustive int) {
 		}
 		return
 	}
-	// update sequences from the five sources on a tracked host
-	host := t.s.FindIP(t.e.RouterIP)
-	if host == nil {
+	// update sequences from the five sources on two tracked hosts of one MAC (its IPv4 and its link-local address): the
+	// host level name and the MAC level name (the one notifications carry for most sources) are both followed
+	hostA := t.s.FindIP(t.e.RouterIP)
+	if hostA == nil {
 		return
 	}
+	lla := netip.MustParseAddr("fe80::66")
+	if f, err := t.s.Parse(refdec.Ether(refdec.MAC{0x33, 0x33, 0, 0, 0, 1}, t.e.RouterMAC, 0x86dd, 0, refdec.IP6(refdec.IP6Hdr{Next: 17, Hop: 64, Src: lla, Dst: netip.MustParseAddr("ff02::1"), PayloadLen: -1}, refdec.UDP(1234, 4321, nil)))); err == nil {
+		t.s.Notify(f)
+	}
+	hostB := t.s.FindIP(lla)
+	if hostB == nil || hostB.MACEntry != hostA.MACEntry {
+		hostB = hostA
+	}
 	for k := 0; k < 12; k++ {
+		host := hostA
+		if r.Intn(2) == 0 {
+			host = hostB
+		}
 		n := mk(r.Intn(81), []string{"dhcp4", "mdns", "ssdp", "llmnr", "nbns"}[r.Intn(5)])
 		src := r.Intn(5)
 		get := func() packet.NameEntry {
@@ -517,7 +530,14 @@ func (t *c17) mergeLaws(r *rand.Rand, exhaustive int) {
 			defer host.MACEntry.Row.RUnlock()
 			return []packet.NameEntry{host.DHCP4Name, host.MDNSName, host.SSDPName, host.LLMNRName, host.NBNSName}[src]
 		}
+		getMAC := func() packet.NameEntry {
+			host.MACEntry.Row.RLock()
+			defer host.MACEntry.Row.RUnlock()
+			e := host.MACEntry
+			return []packet.NameEntry{e.DHCP4Name, e.MDNSName, e.SSDPName, e.LLMNRName, e.NBNSName}[src]
+		}
 		before := get()
+		macBefore := getMAC()
 		// clear the dirty flag through the documented path: Parse + Notify on a frame of this host
 		fb := refdec.Ether(t.e.HostMAC, t.e.RouterMAC, 0x0800, 0, refdec.IP4(refdec.IP4Hdr{TTL: 64, Proto: 17, Src: t.e.RouterIP, Dst: t.e.HostIP}, refdec.UDP(1234, 4321, nil)))
 		if f, err := t.s.Parse(fb); err == nil {
@@ -545,6 +565,23 @@ func (t *c17) mergeLaws(r *rand.Rand, exhaustive int) {
 				changed = true
 			}
 		}
+		// MAC level: merged with the host's name when the host's name changed, untouched otherwise
+		ma, mb := attrs(getMAC()), attrs(macBefore)
+		for i := 0; i < 4; i++ {
+			want := mb[i]
+			if changed && aa[i] != "" {
+				want = aa[i]
+			}
+			if mb[i] != "" && ma[i] == "" {
+				c.Viol("merge:mac-erased", fmt.Sprintf("source %d: MAC level attribute %d was %q and is empty after an update of one of the MAC's hosts", src, i, mb[i]), map[string]any{"index": t.idx, "update": fmt.Sprintf("%+v", n), "host": host.Addr.IP.String()})
+				return
+			}
+			if ma[i] != want {
+				c.Viol("merge:mac-value", fmt.Sprintf("source %d: MAC level attribute %d = %q want %q (before %q, host after %q)", src, i, ma[i], want, mb[i], aa[i]), map[string]any{"index": t.idx, "update": fmt.Sprintf("%+v", n), "host": host.Addr.IP.String()})
+				return
+			}
+		}
+		c.Obs("mac_level_merges_checked", 1)
 		if changed && !host.Dirty() {
 			c.Viol("merge:host-dirty-missing", "a name attribute changed but Dirty() is false", map[string]any{"index": t.idx, "source": src})
 			return
